@@ -414,3 +414,190 @@ Qed.
 
 Lemma kd_monitor le sc fuel pfuel polls : kd None (monitor_p le sc fuel pfuel polls).
 Proof. induction polls as [|n IH]; cbn [monitor_p]; [exact I|]. apply kd_poll_loop. exact IH. Qed.
+
+Lemma kd_thread le sc fuel pfuel s : kd None (thread_p le sc fuel pfuel s).
+Proof. destruct s; [apply kd_api|apply kd_monitor]. Qed.
+
+Theorem same_transaction_retried_tower le sc fuel pfuel specs t flag pending h rpc_or fetch_or sched i :
+  retry_ok (calls_of i (rc_log (rrun_config
+     (rinit t flag (map (thread_p le sc fuel pfuel) specs) pending h rpc_or fetch_or) sched))) = true.
+Proof.
+  apply same_transaction_retried; [|reflexivity].
+  intros j th p Hn Hp. cbn [rinit rc_threads] in Hn. apply nth_error_In in Hn. rewrite map_map in Hn.
+  apply in_map_iff in Hn. destruct Hn as [s [<- _]]. cbn in Hp. inversion Hp; subst. apply kd_thread.
+Qed.
+
+(* ------------------------------------------------------------------------------------------ *)
+(* 4. predicates on programs that every step preserves *)
+
+Definition closed (P : rprog rout -> Prop) : Prop :=
+  (forall l k, P (RAcq l k) -> P k) /\ (forall l k, P (RRel l k) -> P k) /\
+  (forall B f k, P (RAct B f k) -> forall b, P (k b)) /\ (forall B f k, P (RRpc B f k) -> forall a, P (k a)) /\
+  (forall k, P (RReadFlag k) -> forall b, P (k b)) /\ (forall b k, P (RSetFlag b k) -> P k) /\
+  (forall k, P (RWait k) -> P k) /\ (forall k, P (RNotify k) -> P k) /\
+  (forall f k, P (RFetch f k) -> forall r, P (k r)) /\ (forall k, P (RPersist k) -> P k).
+
+Lemma srel_closed P c j th c' p : closed P -> nth_error (rc_threads c) j = Some th -> srel c j th c' ->
+  tprog th = Some p -> P p -> forall th' p', nth_error (rc_threads c') j = Some th' -> tprog th' = Some p' -> P p'.
+Proof.
+  intros [C1 [C2 [C3 [C4 [C5 [C6 [C7 [C8 [C9 C10]]]]]]]]] Hn Hrel Hp HP th' p' Hn' Hp'.
+  assert (Hset : forall (l : list rthread) x y, nth_error l j = Some y -> nth_error (set_nth l j x) j = Some x)
+    by (intros; eapply nth_error_set_nth_eq; eauto).
+  unfold tprog in Hp.
+  destruct Hrel;
+    match goal with Hst : rt_st th = _ |- _ => rewrite Hst in Hp; inversion Hp; subst p; clear Hp end;
+    cbn [rc_threads add_log put_thread set_threads set_tower set_flag set_rpc_or set_lkb rdie] in Hn'.
+  all: try match goal with H0 : fetch_step _ _ _ = _ |- _ =>
+         destruct (fetch_step_frame _ _ _ _ _ H0) as [Eth _]; rewrite Eth in Hn' end.
+  all: first [ erewrite Hset in Hn' by eassumption
+             | erewrite Hset in Hn' by (rewrite nth_error_map, Hn; reflexivity) ];
+       inversion Hn'; subst th'; cbn in Hp'; try discriminate; inversion Hp'; subst p'; eauto.
+Qed.
+
+(* a program that never notifies and never sets the flag to true (every thread but the chain monitor) *)
+Fixpoint no_wake {A} (p : rprog A) : Prop :=
+  match p with
+  | RRet _ | RExhausted => True
+  | RAcq _ k | RRel _ k | RWait k | RPersist k => no_wake k
+  | RSetFlag b k => b = false /\ no_wake k
+  | RNotify _ => False
+  | RAct B f k => forall b, no_wake (k b)
+  | RRpc B f k => forall a, no_wake (k a)
+  | RReadFlag k => forall b, no_wake (k b)
+  | RFetch _ k => forall r, no_wake (k r)
+  end.
+
+Lemma no_wake_closed : closed no_wake.
+Proof. unfold closed; repeat split; cbn; intros; tauto || auto. Qed.
+
+Lemma no_wake_retry {A B} (f : tower -> res B) (K : B -> rprog A) :
+  (forall b, no_wake (K b)) -> forall n, no_wake (carrier_retry n f K).
+Proof. intros HK. induction n as [|n IH]; cbn; [exact I|]. split; [reflexivity|]. intros [b|]; auto. Qed.
+
+Lemma no_wake_embedk {A C} fuel (p : prog A) : forall (K : A -> rprog C),
+  (forall a, no_wake (K a)) -> no_wake (embedk fuel p K).
+Proof.
+  induction p as [a|l k IH|l k IH|B f k IH]; intros K HK; cbn [embedk]; auto.
+  - specialize (IH K HK). destruct (N.eqb l L_reach); [|exact IH].
+    destruct k as [a|l' k'|l' k'|B f k']; try exact IH.
+    destruct k' as [a|l'' k''|l'' k''|B f k'']; try exact IH.
+    cbn [embedk no_wake] in IH. cbn. intros [b|]; [apply IH|]. apply no_wake_retry. exact IH.
+  - cbn. apply IH. exact HK.
+  - cbn. intros b. apply IH. exact HK.
+Qed.
+
+Lemma no_wake_api sc fuel o : no_wake (api_p sc fuel o).
+Proof. cbn. intros [|]; [|exact I]. apply no_wake_embedk. intros; exact I. Qed.
+
+Definition others_no_wake (c : rconf) (excl : list nat) : Prop :=
+  forall x th p, ~ In x excl -> nth_error (rc_threads c) x = Some th -> tprog th = Some p -> no_wake p.
+
+(* one step of a thread that cannot wake anybody: the flag is not raised, nobody else's thread record changes *)
+Lemma no_wake_step c j c' th p :
+  nth_error (rc_threads c) j = Some th -> tprog th = Some p -> no_wake p -> srel c j th c' ->
+  (rc_flag c = false -> rc_flag c' = false) /\
+  (forall x, x <> j -> nth_error (rc_threads c') x = nth_error (rc_threads c) x).
+Proof.
+  intros Hn Hp Hw Hrel. split.
+  - unfold tprog in Hp. destruct Hrel; cbn; auto;
+      try (match goal with H0 : fetch_step _ _ _ = _ |- _ =>
+             destruct (fetch_step_frame _ _ _ _ _ H0) as [_ [_ [Ef _]]]; rewrite Ef; auto end).
+    rewrite H in Hp. inversion Hp; subst p. cbn in Hw. destruct Hw as [-> _]. reflexivity.
+  - intros x Hx. destruct (srel_other _ _ _ _ x Hrel Hx) as [E|[[k Ek] _]]; [exact E|].
+    unfold tprog in Hp. rewrite Ek in Hp. inversion Hp; subst p. destruct Hw.
+Qed.
+
+(* ---- F5a: a thread waits for the notification, un-notified, with the flag false, and no other thread
+   can notify: this holds in every continuation ---- *)
+Lemma stuck_waiting_step c m j c' :
+  stuck_waiting c m = true -> others_no_wake c [m] -> rstep c j = Some c' ->
+  stuck_waiting c' m = true /\ others_no_wake c' [m].
+Proof.
+  unfold stuck_waiting. intros Hs Ho Hstep.
+  apply andb_true_iff in Hs. destruct Hs as [Hf Hm]. apply negb_true_iff in Hf.
+  destruct (nth_error (rc_threads c) m) as [tm|] eqn:Em; [|discriminate].
+  destruct (rstep_inv _ _ _ Hstep) as [th [Hn Hrel]].
+  assert (Hjm : j <> m).
+  { intros ->. rewrite Em in Hn. inversion Hn; subst th. unfold waiting_unnotified in Hm.
+    destruct Hrel; rewrite H in Hm; try discriminate. }
+  assert (Hp : exists p, tprog th = Some p).
+  { unfold tprog. destruct Hrel; rewrite H; eauto. }
+  destruct Hp as [p Hp].
+  assert (Hw : no_wake p) by (eapply Ho; eauto; intros [->|[]]; congruence).
+  destruct (no_wake_step _ _ _ _ _ Hn Hp Hw Hrel) as [Hflag Hfr]. split.
+  - rewrite (Hflag Hf). rewrite (Hfr m (not_eq_sym Hjm)), Em. exact Hm.
+  - intros x th' p' Hx Hn' Hp'. destruct (Nat.eq_dec x j) as [->|Hxj].
+    + exact (srel_closed no_wake c j th c' p no_wake_closed Hn Hrel Hp Hw th' p' Hn' Hp').
+    + rewrite (Hfr x Hxj) in Hn'. eapply Ho; eauto.
+Qed.
+
+Theorem waiting_monitor_is_stuck_forever c m sched :
+  stuck_waiting c m = true -> others_no_wake c [m] -> stuck_waiting (rrun_config c sched) m = true.
+Proof.
+  intros Hs Ho.
+  apply (rrun_inv (fun c => stuck_waiting c m = true /\ others_no_wake c [m])); [|split; assumption].
+  intros c0 i c1 [H1 H2] Hst. eapply stuck_waiting_step; eauto.
+Qed.
+
+(* ---- F5b: thread m asks for a lock that thread a keeps while it waits, un-notified, for the flag; no
+   third thread can notify: this holds in every continuation ---- *)
+Lemma stuck_on_lock_step c m a l j c' :
+  m <> a -> stuck_on_lock c m a l = true -> others_no_wake c [m; a] -> rstep c j = Some c' ->
+  stuck_on_lock c' m a l = true /\ others_no_wake c' [m; a].
+Proof.
+  unfold stuck_on_lock. intros Hma Hs Ho Hstep.
+  apply andb_true_iff in Hs. destruct Hs as [Hf Hs]. apply negb_true_iff in Hf.
+  destruct (nth_error (rc_threads c) m) as [tm|] eqn:Em; [|discriminate].
+  destruct (nth_error (rc_threads c) a) as [ta|] eqn:Ea; [|discriminate].
+  apply andb_true_iff in Hs. destruct Hs as [Hs Hheld]. apply andb_true_iff in Hs. destruct Hs as [Hwant Hwait].
+  destruct (rstep_inv _ _ _ Hstep) as [th [Hn Hrel]].
+  assert (Hja : j <> a).
+  { intros ->. rewrite Ea in Hn. inversion Hn; subst th. unfold waiting_unnotified in Hwait.
+    destruct Hrel; rewrite H in Hwait; try discriminate. }
+  assert (Hjm : j <> m).
+  { intros ->. rewrite Em in Hn. inversion Hn; subst th. unfold wants in Hwant.
+    destruct Hrel; rewrite H in Hwant; try discriminate.
+    apply N.eqb_eq in Hwant. subst l0.
+    assert (r_is_held c l = true); [|congruence].
+    unfold r_is_held. apply existsb_exists. exists ta. split; [eapply nth_error_In; eauto|exact Hheld]. }
+  assert (Hp : exists p, tprog th = Some p).
+  { unfold tprog. destruct Hrel; rewrite H; eauto. }
+  destruct Hp as [p Hp].
+  assert (Hw : no_wake p) by (eapply Ho; eauto; intros [->|[->|[]]]; congruence).
+  destruct (no_wake_step _ _ _ _ _ Hn Hp Hw Hrel) as [Hflag Hfr]. split.
+  - rewrite (Hflag Hf). rewrite (Hfr m (not_eq_sym Hjm)), Em, (Hfr a (not_eq_sym Hja)), Ea.
+    rewrite Hwant, Hwait, Hheld. reflexivity.
+  - intros x th' p' Hx Hn' Hp'. destruct (Nat.eq_dec x j) as [->|Hxj].
+    + exact (srel_closed no_wake c j th c' p no_wake_closed Hn Hrel Hp Hw th' p' Hn' Hp').
+    + rewrite (Hfr x Hxj) in Hn'. eapply Ho; eauto.
+Qed.
+
+Theorem monitor_blocked_on_waiters_lock_is_stuck_forever c m a l sched :
+  m <> a -> stuck_on_lock c m a l = true -> others_no_wake c [m; a] ->
+  stuck_on_lock (rrun_config c sched) m a l = true.
+Proof.
+  intros Hma Hs Ho.
+  apply (rrun_inv (fun c => stuck_on_lock c m a l = true /\ others_no_wake c [m; a])); [|split; assumption].
+  intros c0 i c1 [H1 H2] Hst. eapply stuck_on_lock_step; eauto.
+Qed.
+
+(* API workers started in any reachable configuration cannot wake anybody *)
+Lemma others_no_wake_run c excl sched :
+  (forall x th p, nth_error (rc_threads c) x = Some th -> tprog th = Some p -> no_wake p \/ In x excl) ->
+  forall x th p, nth_error (rc_threads (rrun_config c sched)) x = Some th -> tprog th = Some p -> no_wake p \/ In x excl.
+Proof.
+  intros H0.
+  apply (rrun_inv (fun c => forall x th p, nth_error (rc_threads c) x = Some th -> tprog th = Some p -> no_wake p \/ In x excl));
+    [|exact H0].
+  clear c H0. intros c j c' H Hstep x th' p' Hn' Hp'.
+  destruct (in_dec Nat.eq_dec x excl) as [Hin|Hnin]; [right; exact Hin|left].
+  destruct (rstep_inv _ _ _ Hstep) as [th [Hn Hrel]].
+  destruct (Nat.eq_dec x j) as [->|Hxj].
+  - assert (Hp : exists p, tprog th = Some p) by (unfold tprog; destruct Hrel; rewrite H0; eauto).
+    destruct Hp as [p Hp]. destruct (H j th p Hn Hp) as [Hw|Hin]; [|contradiction].
+    exact (srel_closed no_wake c j th c' p no_wake_closed Hn Hrel Hp Hw th' p' Hn' Hp').
+  - destruct (srel_other _ _ _ _ x Hrel Hxj) as [E|[_ E]]; rewrite E in Hn'.
+    + destruct (H x th' p' Hn' Hp') as [Hw|Hin]; [exact Hw|contradiction].
+    + destruct (nth_error (rc_threads c) x) as [th0|] eqn:E0; [|discriminate]. cbn in Hn'. inversion Hn'; subst th'.
+      rewrite tprog_notify in Hp'. destruct (H x th0 p' E0 Hp') as [Hw|Hin]; [exact Hw|contradiction].
+Qed.
